@@ -20,8 +20,12 @@ ASSUMPTIONS = ["one named type per file, the file named after the type's full na
                "the encoding comparison (schemaless_writer bytes under the loaded schema and under the parsed inlined schema) "
                "is made on the implementation only; the model compares canonical forms and error kinds / names"]
 PARTIAL = ["C19_equiv: the general statement (load = parse of the inlined schema, for every acyclic repository) is not proved; "
-           "proved are the first-try case, the error path (C19_missing) and evaluated instances (diamond, two depths, "
-           "namespace-relative); the correspondence checks the statement on every generated graph",
+           "proved are the first-try case, the error path (C19_missing) with the name that is reported (C19_first_unknown: "
+           "UnknownType carries the first reference in document order that is neither primitive nor in the dictionary at that "
+           "point, everything before it accepted; C19_unknown_table), that every result is a parse result, and evaluated "
+           "instances (diamond, two depths, namespace-relative); what inlining the loaded types gives is C12_piecewise; missing "
+           "is the composition over the retry loop (_inject_schema's position, acceptance of the re-parse with the parsed "
+           "sub-schema injected, induction over nested loads); the correspondence checks the statement on every generated graph",
            "C19_ordered and C19_inline_closed: evaluated instances only; checked on every generated graph "
            "(valid_raw of the model's inlined schema, every dependencies-first order)"]
 
@@ -176,6 +180,47 @@ def inline_first_use(files, top):
     return go(copy.deepcopy(files[top]), "")
 
 
+def first_missing(files, top):
+    """the first reference, in document order (files opened at their first use), that is neither a primitive, nor defined
+    before, nor the subject of a file - the name C19_first_unknown says UnknownType carries"""
+    defined = set()
+
+    class Found(Exception):
+        pass
+
+    def go(s, ns):
+        if isinstance(s, list):
+            for m in s:
+                go(m, ns)
+        elif isinstance(s, str):
+            if s in sg.PRIMS:
+                return
+            q = s if ("." in s or not ns) else ns + "." + s
+            if q in defined:
+                return
+            if q not in files:
+                raise Found(q)
+            go(files[q], "")          # the loader parses the file on its own (namespace "")
+        elif isinstance(s, dict):
+            t = s.get("type")
+            if t == "array":
+                go(s["items"], ns)
+            elif t == "map":
+                go(s["values"], ns)
+            elif t in ("enum", "fixed"):
+                defined.add(sg.spec_fullname(ns, s)[1])
+            elif t in ("record", "error"):
+                sp, full = sg.spec_fullname(ns, s)
+                defined.add(full)
+                for f in s.get("fields", []):
+                    go(f["type"], sp)
+    try:
+        go(files[top], "")
+    except Found as e:
+        return e.args[0]
+    return None
+
+
 def topo_orders(deps, top, limit=None, rng=None):
     """dependencies-first listings of all types, the top last"""
     names = sorted(deps)
@@ -227,10 +272,11 @@ def canon_of(schema):
 
 
 def write_files(d, files, skip=None):
+    skip = skip if isinstance(skip, (set, frozenset, tuple, list)) else {skip}
     for fn in os.listdir(d):
         os.unlink(os.path.join(d, fn))
     for name, raw in files.items():
-        if name != skip:
+        if name not in skip:
             with open(os.path.join(d, name + ".avsc"), "w") as f:
                 json.dump(raw, f)
 
@@ -334,6 +380,17 @@ def run_graph(ctx, g, d, data_rng):
         write_files(d, files, skip=name)
         stm, lm = classify(lambda: load_schema(os.path.join(d, top + ".avsc")))
         obs["missing"].append((name, canon_of(lm) if stm == "ok" else stm))
+    # two files removed: UnknownType names the FIRST missing reference in document order (C19_first_unknown)
+    obs["missing2"] = []
+    others = [n for n in files if n != top]
+    if len(others) >= 2:
+        r2 = __import__("random").Random("|".join(sorted(files)))
+        prs = [tuple(r2.sample(others, 2)) for _ in range(3)]
+        for pr in sorted(set(prs)):
+            write_files(d, files, skip=set(pr))
+            stm, lm = classify(lambda: load_schema(os.path.join(d, top + ".avsc")))
+            rest = {n: r for n, r in files.items() if n not in pr}
+            obs["missing2"].append((pr, canon_of(lm) if stm == "ok" else stm, first_missing(rest, top)))
     return obs
 
 
@@ -432,6 +489,12 @@ def run(ctx):
                 if r != expect:
                     ctx.violation("pred:missing-file", case(g, removed=name), impl=r, model=expect,
                                   signature="C19:load_schema:missing-file:" + ("accepted" if r.startswith("ok:") else "names-" + strip_other(r).split(":")[0]))
+            for pr, r, fm in obs["missing2"]:
+                ctx.count("pred:first-missing", (key, pr), nontrivial=nt)
+                expect = "unknown:" + fm if fm is not None else None
+                if expect is not None and r != expect:
+                    ctx.violation("pred:first-missing", case(g, removed=list(pr)), impl=r, model=expect,
+                                  signature="C19:load_schema:two-missing-files:" + ("accepted" if r.startswith("ok:") else "names-another"))
             # ---- model vs implementation
             ctx.count("corr:load", key, nontrivial=nt)
             if strip_other(obs["load"]) != m_load:
